@@ -48,10 +48,31 @@ def run(ctx):
     if len(mg) < 80:
         raise AnalysisError(f'only {len(mg)} module-level mutable objects found (>= 80 expected)')
     n_w = 0
+    callers_of = {}
+    for cfi in repo.all_funcs():
+        for c in ast.walk(cfi.node):
+            if isinstance(c, ast.Call) and call_name(c):
+                callers_of.setdefault(call_name(c), set()).add((cfi.module, cfi.qualname))
+
+    def only_for(fi, g, allowed, depth=0):
+        """A private helper that exists only to serve the allowed writers of `g`: every function that calls it by name is an allowed
+        writer (same module) or such a helper itself — the allow-list is closed under extracting a helper from its members."""
+        if not fi.name.startswith('_') or fi.name.startswith('__') or depth > 2:
+            return False
+        cs = callers_of.get(fi.name, set())
+        if not cs:
+            return False
+        for (cm_, cq) in cs:
+            if cm_ == g[0] and cq in allowed:
+                continue
+            cfis = repo.mod(cm_).func(cq)
+            if not cfis or not only_for(cfis[0], g, allowed, depth + 1):
+                return False
+        return True
     for g, fi, node, kind in writers(repo, mg):
         n_w += 1
         allowed, reason = ALLOWED_WRITERS.get(g, (set(), ''))
-        ctx.check('R20.1', fi.qualname in allowed, fi.module, fi.qualname, f'{kind} on {g[0]}.{g[1]}: {norm(node, 80)}',
+        ctx.check('R20.1', fi.qualname in allowed or (bool(allowed) and fi.module == g[0] and only_for(fi, g, allowed)), fi.module, fi.qualname, f'{kind} on {g[0]}.{g[1]}: {norm(node, 80)}',
                   f'{fi.module}.{fi.qualname} writes process-global {g[0]}.{g[1]} at run time ({kind}); allowed writers are '
                   f'{sorted(allowed) or "none (read-only table)"}: state would leak between calls / threads / trees',
                   node.lineno, sample={'global': f'{g[0]}.{g[1]}', 'writer': fi.key, 'kind': kind})
@@ -106,7 +127,16 @@ def run(ctx):
                                        norm(x.args[0]) == opt_param and norm(x.args[1]) == 'False' for x in subnodes(cfg, n))]
     # the snapshot: the local that is returned, bound to a comprehension over the requested options reading the store
     ret_names = {norm(n.value) for n in walk_no_nested(so.node) if isinstance(n, ast.Return) and isinstance(n.value, ast.Name)}
-    old = [n for n in cfg.nodes if n.kind == 'stmt' and isinstance(n.ast, ast.Assign) and norm(n.ast.targets[0]) in ret_names]
+    def reads_store(e):
+        return any(isinstance(x, ast.Subscript) and norm(x.value) in store_names for x in ast.walk(e))
+    # form 1: `snap = {o: store[o] for o in options}`
+    old = [n for n in cfg.nodes if n.kind == 'stmt' and isinstance(n.ast, ast.Assign) and norm(n.ast.targets[0]) in ret_names and
+           not (isinstance(n.ast.value, ast.Dict) and not n.ast.value.keys)]
+    # form 2: `snap = {}` ... `for o in options: snap[o] = store[o]` — the loop is the lookup
+    loop_form = [n for n in cfg.nodes if n.kind == 'iter' and norm(n.ast.iter) == opt_param and isinstance(n.ast.target, ast.Name) and
+                 any(isinstance(y, ast.Assign) and isinstance(y.targets[0], ast.Subscript) and norm(y.targets[0].value) in ret_names and
+                     norm(y.targets[0].slice) == n.ast.target.id and reads_store(y.value) for b in n.ast.body for y in ast.walk(b))]
+    old = old + loop_form
     # any other write into the thread-local store inside set_options (e.g. per-item assignment in a loop) is an update too
     other_writes = [n for n in cfg.nodes if n.kind == 'stmt' and isinstance(n.ast, (ast.Assign, ast.AugAssign)) and any(
         isinstance(t, ast.Subscript) and norm(t.value) in store_names
@@ -132,9 +162,11 @@ def run(ctx):
                       f'after the defaults were changed, {[norm(r.ast, 60) for r in risky][:2]} can still raise: the caller sees an '
                       f'error but the options stay changed', u.lineno)
         # the old-value lookup must cover every key of `options` (comprehension over options) and turn KeyError into ValueError
-        o = old[0].ast.value
-        ok = isinstance(o, ast.DictComp) and norm(o.generators[0].iter) == opt_param and \
-            any(isinstance(x, ast.Subscript) and norm(x.value) in store_names for x in ast.walk(o.value))
+        if old[0].kind == 'iter':
+            ok = True           # established by construction of `loop_form`
+        else:
+            o = old[0].ast.value
+            ok = isinstance(o, ast.DictComp) and norm(o.generators[0].iter) == opt_param and reads_store(o.value)
         ctx.check('R20.3', ok, 'fst_options', 'set_options', norm(old[0].ast, 100),
                   'the snapshot of old values must look up every key of `options` in the store (unknown names are rejected here)', old[0].lineno)
 
@@ -176,7 +208,7 @@ def run(ctx):
     check_registries(ctx)
 
     # ---- R20.8 -------------------------------------------------------------------------------------------------------
-    ctx.rule('R20.8', 'every access to _MODIFYING is keyed by a variable bound from `.root` in the same method', 12)
+    ctx.rule('R20.8', 'every access to _MODIFYING is keyed by a variable bound from `.root` in the same method (or by the parameter of a helper that every call site hands a root)', 4)
     cm = repo.mod('fst_core')
     for q, fis in cm.funcs.items():
         for fi in fis:
@@ -205,7 +237,24 @@ def run(ctx):
                         continue
                     key = n.args[0]
                 if key is not None:
-                    ctx.check('R20.8', norm(key) in roots, fi.module, fi.qualname, n,
+                    ok = norm(key) in roots
+                    if not ok and isinstance(key, ast.Name) and '.' not in fi.qualname and \
+                            key.id in [a.arg for a in fi.node.args.posonlyargs + fi.node.args.args]:
+                        # a helper keyed by its parameter: every call site has to hand it a root (`X.root`, or a local bound from `.root`)
+                        pos = [a.arg for a in fi.node.args.posonlyargs + fi.node.args.args].index(key.id)
+                        sites = []
+                        for cfi in repo.all_funcs():
+                            if isinstance(cfi.node, ast.Lambda):
+                                continue
+                            croots = {x.id for a_ in walk_no_nested(cfi.node) if isinstance(a_, ast.Assign) and isinstance(a_.value, ast.Attribute) and
+                                      a_.value.attr == 'root' for t in a_.targets for x in ast.walk(t) if isinstance(x, ast.Name)}
+                            for c in walk_no_nested(cfi.node):
+                                if isinstance(c, ast.Call) and isinstance(c.func, ast.Name) and c.func.id == fi.name:
+                                    arg = c.args[pos] if pos < len(c.args) else next((k.value for k in c.keywords if k.arg == key.id), None)
+                                    sites.append(arg is not None and ((isinstance(arg, ast.Attribute) and arg.attr == 'root') or
+                                                                      (isinstance(arg, ast.Name) and arg.id in croots)))
+                        ok = bool(sites) and all(sites)
+                    ctx.check('R20.8', ok, fi.module, fi.qualname, n,
                               f'_MODIFYING is accessed with key `{norm(key)}` which is not bound from `.root` here: two trees (threads) '
                               f'would share or miss each other\'s registry entry', n.lineno, sample=norm(n))
 
@@ -232,7 +281,7 @@ def public_option_methods(ctx):
                 if kw is not None and kw.arg == 'options':
                     out.append(fi)
     for q in ('sub', 'subn'):
-        out += [fi for fi in ctx.repo.mod('match').func(q)]
+        out += [fi for fi in ctx.repo.find_funcs('match', q)]
     return out
 
 
